@@ -232,6 +232,21 @@ def run_one(prop, case, ctx):
             res["tags"] = list(res["tags"]) + ["fp-lib-only:" + k for k in only]
             if getattr(prop, "FP_STRICT", False) and res["verdict"] == "held":
                 k = only[0]
+                where0_ = FP.lib[k]
+                # confirm on a second execution of the same case (an event that does not come back is recorded, not reported)
+                try:
+                    with warnings.catch_warnings():
+                        warnings.simplefilter("ignore")
+                        FP.run(prop, case)
+                    again_ = k in FP.lib and k not in FP.other
+                except Exception:
+                    again_ = False
+                ctx.take_alerts()
+                if not again_:
+                    ctx.tick("fp-event-not-reproduced")
+                    res["tags"] = list(res["tags"]) + ["fp-event-not-reproduced"]
+                    return res
+                FP.lib[k] = where0_
                 res = violated("the library's computation hits a floating-point '%s' event (in %s) that numpy's computation on the same data does not have: with np.seterr(all='raise') "
                                "or warnings turned into errors this call raises FloatingPointError although the dense computation succeeds" % (k, FP.lib[k]), list(res["tags"]) + ["fp-event"])
     alerts = ctx.take_alerts()
